@@ -266,3 +266,14 @@ def subsets(names):
     for k in range(len(names) + 1):
         for c in itertools.combinations(names, k):
             yield c
+
+
+def wide_manager(nvars, rot=0):
+    """A manager with many declared variables (v0..v{n-1} declared in a rotated order)."""
+    allnames = ['v%d' % i for i in range(nvars)]
+    decl = allnames[rot % nvars:] + allnames[:rot % nvars]
+    return S.new_bdd({v: i for i, v in enumerate(decl)}), decl
+
+
+def wide_subsets(nvars, k):
+    return list(itertools.combinations(range(nvars), k))
